@@ -39,6 +39,7 @@ const replayTestTmpl = `package %s
 import (
 	"fmt"
 	"os"
+	"strconv"
 	"strings"
 	"testing"
 
@@ -61,20 +62,33 @@ func TestZZVerifReplay(t *testing.T) {
 					fmt.Printf("VRT-UNCAUGHT-PANIC %%v\n", r)
 				}
 			}()
-			h := vrt.NewReplay(t, m)
-			f := zzVerifHarnesses[h.HarnessName()]
-			if f == nil {
-				t.Fatalf("unknown harness %%q", h.HarnessName())
+			// environment nondeterminism (map iteration order, scheduling) is resampled by
+			// repeating the run; the first failing repetition is reported
+			repeat := 1
+			if r, err := strconv.Atoi(os.Getenv("VRT_REPEAT")); err == nil && r > 1 {
+				repeat = r
 			}
-			f(h)
-			h.Done()
+			for i := 0; i < repeat; i++ {
+				h := vrt.NewReplay(t, m)
+				h.Quiet = i+1 < repeat
+				f := zzVerifHarnesses[h.HarnessName()]
+				if f == nil {
+					t.Fatalf("unknown harness %%q", h.HarnessName())
+				}
+				f(h)
+				if h.Failed() || i+1 == repeat {
+					h.Flush()
+					h.Done()
+					break
+				}
+			}
 		})
 	}
 }
 `
 
 // replayBatch runs all cases of one package in a single `go test` invocation.
-func replayBatch(dir string, pkgPath string, pkgName string, harnessNames []string, cases []*ReplayCase, race bool, overlayPaths map[string]string) (map[string]*ReplayResult, string, error) {
+func replayBatch(dir string, pkgPath string, pkgName string, harnessNames []string, cases []*ReplayCase, race bool, repeat int, overlayPaths map[string]string) (map[string]*ReplayResult, string, error) {
 	if err := os.MkdirAll(dir, 0o755); err != nil {
 		return nil, "", err
 	}
@@ -114,8 +128,8 @@ func replayBatch(dir string, pkgPath string, pkgName string, harnessNames []stri
 	if race {
 		raceFlag = "-race "
 	}
-	script := fmt.Sprintf("#!/bin/sh\n# replay of solver models against the real build\nexport GOFLAGS=-mod=mod GOPROXY=off GOSUMDB=off GOTOOLCHAIN=local\ncd %s && VRT_MODELS=${VRT_MODELS:-%s} exec go test %s-vet=off -count=1 -timeout 20m -overlay %s -run '^TestZZVerifReplay$' -v ./%s/\n",
-		repoDir(), strings.Join(modelPaths, ","), raceFlag, ovFile, rel)
+	script := fmt.Sprintf("#!/bin/sh\n# replay of solver models against the real build\nexport GOFLAGS=-mod=mod GOPROXY=off GOSUMDB=off GOTOOLCHAIN=local\ncd %s && VRT_REPEAT=${VRT_REPEAT:-%d} VRT_MODELS=${VRT_MODELS:-%s} exec go test %s-vet=off -count=1 -timeout 20m -overlay %s -run '^TestZZVerifReplay$' -v ./%s/\n",
+		repoDir(), repeat, strings.Join(modelPaths, ","), raceFlag, ovFile, rel)
 	runsh := filepath.Join(dir, "run.sh")
 	if err := os.WriteFile(runsh, []byte(script), 0o755); err != nil {
 		return nil, "", err
